@@ -24,6 +24,29 @@ class _Failure:
         self.exc = exc
 
 
+class SimPoolHang(BaseException):
+    """The real pool would hang here: its result-handler thread died while unpickling a worker's exception, so this
+    and every later result is never delivered and the consumer waits forever."""
+
+
+class _Undeliverable:
+    def __init__(self, why):
+        self.why = why
+
+
+def _ship_exception(e):
+    """What the parent process receives for an exception raised in a worker."""
+    try:
+        blob = pickle.dumps(e)
+    except Exception as pe:     # the worker reports the encoding problem instead (multiprocessing.pool.MaybeEncodingError)
+        from multiprocessing.pool import MaybeEncodingError
+        return _Failure(MaybeEncodingError(pe, repr(e)))
+    try:
+        return _Failure(pickle.loads(blob))
+    except Exception as ue:     # raised inside the parent's result-handler thread: the thread dies
+        return _Undeliverable(f"{type(e).__name__} cannot be rebuilt from its pickle in the parent: {type(ue).__name__}: {ue}")
+
+
 class AsyncResult:
     def __init__(self, value):
         self._v = value
@@ -143,8 +166,8 @@ def make_pool(plan, stats):
                         raise HarnessError(f"SimPool: task argument does not pickle: {e!r}")
                     try:
                         val = f(*arg) if star else f(arg)
-                    except Exception as e:  # the worker sends the exception back
-                        failed = _Failure(e)
+                    except Exception as e:  # the worker sends the exception back (pickled, like any result)
+                        failed = _ship_exception(e)
                         break
                     try:
                         out.append(pickle.loads(pickle.dumps(val)))
@@ -170,10 +193,21 @@ def make_pool(plan, stats):
 
         def imap(self, func, iterable, chunksize=1):
             chunks, completion, results = self._simulate(func, iterable, chunksize)
+            self._kill_after_undeliverable(completion, results)
             return self._iter(range(len(chunks)), results)
+
+        @staticmethod
+        def _kill_after_undeliverable(completion, results):
+            dead = None
+            for ci in completion:           # everything that arrives after the handler died is lost as well
+                if dead is not None:
+                    results[ci] = _Undeliverable(dead)
+                elif isinstance(results[ci], _Undeliverable):
+                    dead = results[ci].why
 
         def map(self, func, iterable, chunksize=None):
             chunks, completion, results = self._simulate(func, iterable, chunksize or 1)
+            self._kill_after_undeliverable(completion, results)
             return list(self._iter(range(len(chunks)), results))
 
         def starmap(self, func, iterable, chunksize=None):
@@ -232,6 +266,7 @@ class _ResultIterator:
         self._order, self._results = order, results
         self._pos = 0
         self._buf = []
+        self._dead = False
 
     def __iter__(self):
         return self
@@ -241,6 +276,9 @@ class _ResultIterator:
             if self._pos >= len(self._order):
                 raise StopIteration
             r = self._results[self._order[self._pos]]
+            if isinstance(r, _Undeliverable) or self._dead:
+                self._dead = True
+                raise SimPoolHang(r.why if isinstance(r, _Undeliverable) else "result handler already dead")
             self._pos += 1
             if isinstance(r, _Failure):
                 raise r.exc
